@@ -67,7 +67,7 @@ theorem visA_nil_not_committed (acts : List Action) (h : visA acts = []) : commi
   | nil => rfl
   | cons a rest ih =>
     cases a <;>
-      simp_all [visA, visibleOf, effectsOf, committed, Effect.visible, List.filter]
+      simp_all [visA, visibleOf, effectsOf, committed, Effect.observable, List.filter]
 
 theorem replayStep_silent_height (M : Machine S) (hs : ReplaySafe M) (t : S) (b : Entry)
     (h : visA (replayStep M t b).2 = []) : M.height (replayStep M t b).1 = M.height t := by
